@@ -1,4 +1,14 @@
 CHECKS = {
+ "C14": {
+  "text": "Generated LTI / LTV LQ problems (batch 1..3, dims 1..6, horizon <= 10 quick / 20 thorough, unstable dynamics, time-varying PD cost "
+          "with cross terms and condition up to 1e6, affine terms, random nominal inputs) solved inside HISTORIES on one system object "
+          "(earlier solves, manual system calls, systime assignment, reset) and compared with an independent condensed QP: feasibility, "
+          "reported cost, zero gradient, equality with -H^-1 h, no improving perturbation; MPC on the same linear problems; MPC on smooth "
+          "nonlinear systems for feasibility and cost consistency. Exploration.",
+  "design_ref": "DESIGN.md section 3, C14",
+  "note": "Reference: numpy condensing of the LQ problem (self-tested against numerical gradients); tolerances scale with cond(H).",
+  "technique": "property-based testing: Hypothesis-generated problems and call histories against a reference solver (condensed QP)",
+ },
  "C13": {
   "text": "Generated linear-Gaussian systems (dims 1..6, SPD Q/R/P over six decades, non-diagonal P, arbitrary y, UKF k incl. negative centre "
           "weight) and filter runs of up to 25 (quick) / 50 steps, every step compared LOCALLY with a 50-digit mpmath Kalman recursion under "
